@@ -46,6 +46,7 @@ func (dm *defaultMkdirerPipeline) worker(ctx context.Context, wg *sync.WaitGroup
 			if !ok {
 				return
 			}
+			verifPoint("mkdir.recv")
 			if dm.isExistRoot([]*Node{root}) {
 				sendErr(ctx, errc, ErrExistPath)
 				return
